@@ -350,3 +350,163 @@ def foreign_traffic(P, salt=0):
             except Exception:  # noqa
                 bad += 1
     return bad
+
+
+# ====================================================================================================================
+# Hardening pass 3 (HARDENING3.md): class G (magnitudes), class H (special values / parameters special only up to rounding),
+# class I (structural sweeps: orderings of two-index term lists, coefficient-set layouts)
+# ====================================================================================================================
+from fractions import Fraction as _Fr
+
+# ------------------------------------------------------------------------------------------ class G: magnitude regimes
+# coefficient / coordinate scale factors for the homogeneous routines (fast sums, Clenshaw derivative rows, the fit; x^m y^n and cos(a t) r^b H^c in their
+# coordinates).  Deliberately NOT powers of two, so that s * c is rounded like any other user input.
+SCALES = (1e-12, 1e-9, 1e-6, 1e-3, 1e3, 1e6, 1e9, 1e12)
+
+
+def scales(quick=True):
+    return (1e-12, 1e-9, 1e-3, 1e6, 1e12) if quick else SCALES + (1e-15, 3e-11, 7e10, 1e15)
+
+
+# ------------------------------------------------------------------------------------------ class H: special only up to rounding
+def ulps(v, k):
+    """v moved by k units in the last place (k < 0: towards -inf)."""
+    v = float(v)
+    for _ in range(abs(int(k))):
+        v = float(np.nextafter(v, np.inf if k > 0 else -np.inf))
+    return v
+
+
+NEAR = _Fr(1, 2 ** 26)          # "special up to rounding": within 2^-26 (1.5e-8) of a special line, not on it (an ordinary parameter is never that close unless it was meant to be ON the line)
+
+
+def _near(q, target=0):
+    d = abs(q - target)
+    return 0 < d <= NEAR
+
+
+def special_class(params):
+    """Static class of shape parameters that are special only UP TO ROUNDING, decided in exact rational arithmetic on the floats' values:
+       two parameters (Jacobi):  'alpha+beta~0', 'alpha+beta~-1', 'alpha~beta', 'alpha~k/2' / 'beta~k/2' (within 2^-26 of an integer or half-integer, incl. 0)
+       one parameter (Laguerre, Dickson):  'alpha~k/2'
+    Returns (label, the exactly special neighbour parameters) or None.  The neighbour is a float tuple lying exactly ON the special line / value."""
+    try:
+        q = [_Fr(float(p)) for p in params]
+    except (TypeError, ValueError, OverflowError):
+        return None
+    if len(q) == 2:
+        a, b = q
+        fa, fb = float(params[0]), float(params[1])
+        if _near(a + b, 0):
+            return 'alpha+beta~0', ((fa, -fa) if abs(fa) < 1 else (-fb, fb))
+        if _near(a + b, -1):
+            # a float pair lying exactly on the line: b' = fl(-1 - a), a' = fl(-1 - b') (exact as soon as the partner has the coarser spacing)
+            ca, cb = fa, fb
+            for _ in range(3):
+                cb = float(-1 - _Fr(ca))
+                if _Fr(ca) + _Fr(cb) == -1:
+                    break
+                ca = float(-1 - _Fr(cb))
+                if _Fr(ca) + _Fr(cb) == -1:
+                    break
+            ok = _Fr(ca) + _Fr(cb) == -1 and min(ca, cb) > -1
+            return 'alpha+beta~-1', ((ca, cb) if ok else None)
+        if _near(a - b, 0):
+            return 'alpha~beta', (fa, fa)
+    for i, v in enumerate(q):
+        k2 = round(v * 2)
+        if _near(v, _Fr(k2, 2)):
+            nb = [float(p) for p in params]
+            nb[i] = k2 / 2
+            name = ('alpha', 'beta')[i] if len(q) == 2 else 'alpha'
+            return f'{name}~k/2', (tuple(nb) if min(nb) > -1 or len(q) == 1 else None)
+    return None
+
+
+def near_special_jacobi(thorough=False):
+    """(class label, (alpha, beta), exactly-special neighbour or None) - legal Jacobi parameters (both > -1) that are special only up to rounding: the kind of
+    value that comes out of arithmetic on user inputs (0.1 + 0.2, 1 - 2/3, a +- 1 ulp), on every special line of the quantifier (alpha + beta in {0, -1}, the
+    Chebyshev half-integers, Legendre (0, 0), (0, 4), alpha = beta) and at the boundary alpha -> -1."""
+    r3 = 0.1 + 0.2                 # 0.30000000000000004
+    out = [('alpha+beta~0', (r3, -0.3)), ('alpha+beta~0', (1 / 3, -(1 - 2 / 3))), ('alpha+beta~0', (-0.3, r3)), ('alpha+beta~0', (0.7 - 0.4, -0.3)),
+           ('alpha+beta~0', (ulps(0.5, 1), -0.5)), ('alpha+beta~0', (-0.5, ulps(0.5, -1))), ('alpha+beta~0', (1e-17, 0.0)), ('alpha+beta~0', (0.0, -2.0 ** -60)),
+           ('alpha+beta~0', (0.875, ulps(-0.875, 1))), ('alpha+beta~0', (ulps(0.25, -2), -0.25)),
+           ('alpha+beta~-1', (-0.25, ulps(-0.75, 1))), ('alpha+beta~-1', (-0.25, ulps(-0.75, -2))), ('alpha+beta~-1', (ulps(-0.25, 1), -0.75)),
+           ('alpha+beta~-1', (ulps(-0.5, 1), -0.5)), ('alpha+beta~-1', (-0.5, ulps(-0.5, -1))), ('alpha+beta~-1', (-0.1 - 0.2, -0.7)), ('alpha+beta~-1', (-0.875, ulps(-0.125, 1))),
+           ('alpha+beta~-1', (ulps(-0.7, 1), -0.3)),
+           ('alpha~beta', (0.3, r3)), ('alpha~beta', (ulps(0.5, 1), 0.5)), ('alpha~beta', (1.5, ulps(1.5, -1))), ('alpha~beta', (ulps(-0.5, -1), -0.5)),
+           ('parameter~k/2', (0.0, ulps(4.0, 1))), ('parameter~k/2', (2.0 ** -52, 4.0)), ('parameter~k/2', (ulps(1.0, -1), 0.0)), ('parameter~k/2', (0.0, ulps(1.0, 1))),
+           ('parameter~k/2', (2.0, ulps(3.0, -1))), ('parameter~k/2', (ulps(-0.5, 1), ulps(0.5, -1))), ('parameter~k/2', (ulps(1.5, 1), -0.5)), ('parameter~k/2', (2.5, ulps(0.0, 1))),
+           ('alpha~-1', (ulps(-1.0, 1), 0.0)), ('alpha~-1', (0.25, ulps(-1.0, 1))), ('alpha~-1', (ulps(-1.0, 1), 2.5))]
+    # (BOTH parameters within rounding of -1 is the corner where the family degenerates - alpha + beta + 2 -> 0, h_1 has a pole - and the three-term recurrence divides by
+    #  alpha + beta + 2: beyond the numerically meaningful limit, not driven)
+    if thorough:
+        for a0, b0 in ((0.3, -0.3), (0.625, -0.625), (-0.25, -0.75), (-0.6, -0.4), (0.5, 0.5), (0.0, 0.0), (0.0, 4.0), (-0.5, 0.5)):
+            for ka, kb in ((1, 0), (-1, 0), (0, 1), (0, -1), (1, 1), (2, -1), (-3, 0), (0, 3)):
+                a, b = ulps(a0, ka), ulps(b0, kb)
+                if min(a, b) > -1:
+                    out.append(('ulp-neighbourhood', (a, b)))
+    res = []
+    for cls, ab in out:
+        sc = special_class(ab)
+        res.append((cls, ab, sc[1] if sc else None))
+    return res
+
+
+# alpha or beta EXACTLY 0, -1/2, 1/2 (and integer partners), and clearly generic neighbours of the special lines
+EXACT_SPECIAL_JACOBI = [(0.0, 0.5), (0.5, 0.0), (-0.5, 0.0), (0.0, -0.5), (1.0, -0.5), (0.0, 1.5), (-0.5, 2.0), (0.5, 0.5), (-0.5, -0.5), (0.0, 0.0), (0.5, -0.5), (-0.5, 0.5),
+                        (0.3, -0.3), (-0.25, -0.75), (1 / 3, -1 / 3), (-0.3, -0.7)]
+GENERIC_NEIGHBOURS_JACOBI = [(0.3 + 1e-6, -0.3), (0.3, -0.3 - 1e-9), (-0.25 + 1e-7, -0.75), (-0.5 + 1e-5, -0.5), (1e-4, 0.0), (0.5, 0.5 + 1e-8)]
+
+
+def near_special_scalar(specials, lower=None, thorough=False):
+    """(class label, alpha, exactly-special neighbour) - one shape parameter within a few ulp of a special value (0, +-1/2, integers); `lower`: exclusive lower bound."""
+    out = []
+    for s in specials:
+        cands = [ulps(s, 1), ulps(s, -1), ulps(s, 3)] + ([s + 1e-17, s - 2.0 ** -60] if s == 0 else []) + ([ulps(s, -2), ulps(s, 7)] if thorough else [])
+        for v in cands:
+            if lower is None or v > lower:
+                out.append(('alpha~k/2', v, float(s)))
+    return out
+
+
+# ------------------------------------------------------------------------------------------ class I: orderings and layouts
+def term_orderings(terms, rng, nshuffle=3):
+    """(label, list) every structurally different ordering of a list of two-index terms (n, m): ascending, descending, grouped by |m| ascending / descending in n,
+    grouped by |m| with n NON-ascending inside each group and the groups interleaved, signs alternating, m-major, shuffles."""
+    t = [tuple(int(v) for v in e) for e in terms]
+    out = [('ascending', sorted(t)), ('descending', sorted(t, reverse=True)),
+           ('by-|m|-then-n-ascending', sorted(t, key=lambda e: (abs(e[1]), e[0], e[1]))),
+           ('by-|m|-then-n-descending', sorted(t, key=lambda e: (abs(e[1]), -e[0], e[1]))),
+           ('by-|m|-descending-n-descending', sorted(t, key=lambda e: (-abs(e[1]), -e[0], -e[1]))),
+           ('m-major-n-descending', sorted(t, key=lambda e: (e[1], -e[0]))),
+           ('n-descending-m-ascending', sorted(t, key=lambda e: (-e[0], e[1]))),
+           ('sine-terms-first', sorted(t, key=lambda e: (e[1] >= 0, e[0], abs(e[1]))))]
+    # per-|m| non-ascending: inside each |m| group the radial orders go high, low, middle ...; the groups are dealt round-robin
+    groups = {}
+    for e in sorted(t):
+        groups.setdefault(abs(e[1]), []).append(e)
+    zig = []
+    for g in groups.values():
+        g = g[::-1]
+        zig.append(g[::2] + g[1::2][::-1])
+    rr = []
+    while any(zig):
+        for g in zig:
+            if g:
+                rr.append(g.pop(0))
+    out.append(('per-|m|-non-ascending-interleaved', rr))
+    for i in range(nshuffle):
+        out.append((f'shuffled', [t[j] for j in rng.permutation(len(t))]))
+    seen, res = set(), []
+    for lab, o in out:
+        if tuple(o) not in seen:
+            seen.add(tuple(o))
+            res.append((lab, o))
+    return res
+
+
+def layout_patterns(slots=5):
+    """Every pattern of 'empty' / 'len1' / 'lenk' over `slots` coefficient lists (m = 0 .. slots-1): 3^slots tuples of 'e', '1', 'k'."""
+    import itertools
+    return list(itertools.product('e1k', repeat=slots))
